@@ -15,7 +15,8 @@ use crate::c01::{self, SockOutcome};
 
 pub const RULE: &str = "(A) request sequences of C01 x transport in {unix path, unix path;mode=0660, unix:@abstract, \
 tcp:127.0.0.1:port, service spawned by Connection::with_activate, stdio of a command spawned by \
-Connection::with_bridge}: every transport's reply stream satisfies the reference model and equals (GetInfo's \
+Connection::with_bridge, a service started by the harness like a service manager would (descriptor 3 + LISTEN_*, \
+default listen configuration) with a blocking and with a non-blocking inherited listener}: every transport's reply stream satisfies the reference model and equals (GetInfo's \
 interface list compared as a set) the stream of the in-memory handler for the same requests at the same \
 pipelining depth. (B) spawning constructors run in fresh helper processes whose descriptor table is varied (0..3 \
 placeholder descriptors, so the listening socket is / is not already descriptor 3): the activated service dumps \
@@ -71,6 +72,64 @@ pub struct Transports {
     servers: Vec<(String, String, Server)>, // (name, connect address, server)
     activated: Option<(Arc<std::sync::RwLock<varlink::Connection>>, String)>,
     activated_uses: usize,
+    /// services the harness itself starts the way a service manager does (descriptor 3 + LISTEN_*), with
+    /// the default listen configuration (no idle timeout): one with a blocking, one with a non-blocking
+    /// inherited listening socket
+    own: Vec<OwnActivated>,
+}
+
+pub struct OwnActivated {
+    name: String,
+    addr: String,
+    child: std::process::Child,
+}
+
+impl Drop for OwnActivated {
+    fn drop(&mut self) {
+        unsafe {
+            libc::kill(-(self.child.id() as i32), libc::SIGKILL);
+        }
+        let _ = self.child.kill();
+        let _ = self.child.wait();
+    }
+}
+
+fn spawn_own_activated(dir: &std::path::Path, tag: &str, nonblocking: bool) -> std::io::Result<OwnActivated> {
+    use std::os::unix::io::AsRawFd;
+    use std::os::unix::process::CommandExt;
+    let path = dir.join(format!("own-{}.sock", tag));
+    let listener = std::os::unix::net::UnixListener::bind(&path)?;
+    listener.set_nonblocking(nonblocking)?;
+    let lfd = listener.as_raw_fd();
+    let mut cmd = std::process::Command::new("sh");
+    cmd.arg("-c").arg("export LISTEN_PID=$$; exec \"$0\" activated").arg(svc_bin());
+    cmd.env("LISTEN_FDS", "1")
+        .env("LISTEN_FDNAMES", "varlink")
+        .env("VARLINK_ADDRESS", format!("unix:{}", path.display()))
+        .env("VL_IDLE", "0")
+        .env_remove("VL_DUMP")
+        .stdin(std::process::Stdio::null())
+        .stdout(std::process::Stdio::null());
+    cmd.process_group(0);
+    unsafe {
+        cmd.pre_exec(move || {
+            if lfd == 3 {
+                if libc::fcntl(3, libc::F_SETFD, 0) < 0 {
+                    return Err(std::io::Error::last_os_error());
+                }
+            } else if libc::dup2(lfd, 3) < 0 {
+                return Err(std::io::Error::last_os_error());
+            }
+            Ok(())
+        });
+    }
+    let child = cmd.spawn()?;
+    drop(listener);
+    Ok(OwnActivated {
+        name: format!("activated-by-harness({}-listener,no-idle-timeout)", if nonblocking { "nonblocking" } else { "blocking" }),
+        addr: format!("unix:{}", path.display()),
+        child,
+    })
 }
 
 fn free_tcp_port(seed: u64, n: u64) -> u16 {
@@ -102,7 +161,13 @@ impl Transports {
         let port = free_tcp_port(seed, 1);
         let a = format!("tcp:127.0.0.1:{}", port);
         servers.push(("tcp".to_string(), a.clone(), Server::start(t_service().0, &a, 1, 32, 0)));
-        Transports { skip: vec![], _scratch: scratch, servers, activated: None, activated_uses: 0 }
+        let mut own = vec![];
+        for (tag, nb) in [("b", false), ("nb", true)] {
+            if let Ok(o) = spawn_own_activated(&scratch.path, tag, nb) {
+                own.push(o);
+            }
+        }
+        Transports { skip: vec![], _scratch: scratch, servers, activated: None, activated_uses: 0, own }
     }
 
     fn activated_addr(&mut self) -> Result<String, Fail> {
@@ -126,9 +191,22 @@ impl Transports {
     }
 }
 
+/// The bridge command is a shell command line: plain, with an environment prefix, behind a builtin.
+fn bridge_command(k: usize) -> String {
+    let bin = svc_bin();
+    match k % 4 {
+        0 => format!("{} stdio", bin.display()),
+        1 => format!("VL_UNUSED=1 {} stdio", bin.display()),
+        2 => format!("cd / && {} stdio", bin.display()),
+        _ => format!("umask 077; {} stdio", bin.display()),
+    }
+}
+
 fn bridge_peer() -> Result<Peer, Fail> {
-    let conn = varlink::Connection::with_bridge(&format!("{} stdio", svc_bin().display()))
-        .map_err(|e| Fail::new("transport/with_bridge-failed", format!("{:?}", e.kind())))?;
+    static K: std::sync::atomic::AtomicUsize = std::sync::atomic::AtomicUsize::new(0);
+    let cmd = bridge_command(K.fetch_add(1, std::sync::atomic::Ordering::Relaxed));
+    let conn = varlink::Connection::with_bridge(&cmd)
+        .map_err(|e| Fail::new("transport/with_bridge-failed", format!("{:?} (command {:?})", e.kind(), cmd)))?;
     let (reader, writer, fd) = {
         let mut g = conn.write().unwrap();
         let fd = g.stream.as_ref().map(|s| s.as_raw_fd()).unwrap_or(-1);
@@ -197,6 +275,9 @@ pub fn run_case_a(tr: &mut Transports, svc: &varlink::VarlinkService, syms: &[Sy
     let want = normalise(&mem_replies(svc, syms, depth, style));
     let mut hung = 0;
     let mut names: Vec<(String, Option<String>)> = tr.servers.iter().map(|(n, a, _)| (n.clone(), Some(a.clone()))).collect();
+    for o in &tr.own {
+        names.push((o.name.clone(), Some(o.addr.clone())));
+    }
     names.push(("with_activate".into(), None));
     names.push(("with_bridge".into(), None));
     for (name, addr) in names {
@@ -262,7 +343,7 @@ fn part_a(ctx: &mut Ctx, cases: u32, skip: Vec<String>) {
     let strat = c01::seq_strategy(alphabet(), 1, 10);
     let r = pt::check_with(ctx, "c16a", cases, 100, 60_000, strat, |ctx, (syms, depth, style)| {
         ctx.case(if syms.len() >= 2 { Some(hash64(&(syms, depth))) } else { None });
-        ctx.class("A:sequence-over-8-transports");
+        ctx.class("A:sequence-over-10-transports");
         ctx.sample(|| c01::case_json(syms, *depth, *style, "all"));
         let h = run_case_a(&mut tr_cell.borrow_mut(), &svc, syms, *depth, *style, None)?;
         hung.set(hung.get() + h);
